@@ -3,7 +3,7 @@ from pyvc.verify import Post, Case, Equiv
 from contracts import common
 
 PROPERTY = 'C02'
-REF_MODULES = ['ref_t', 'h_path', 'ref_extra', 'ref_core']
+REF_MODULES = ['ref_t', 'h_path', 'ref_extra', 'ref_core', 'ref_auto', 'ref_match', 'ref_reduce']
 TS = ['len(T.__ops__) == 1', 'T.__ops__[0] is T', 'len(S.__ops__) == 1', 'S.__ops__[0] is S', 'len(A.__ops__) == 1', 'A.__ops__[0] is A']
 
 
@@ -61,6 +61,12 @@ def contracts():
              raises={'core.BadSpec': "operation not in ('.', '[', 'P')"})]))
     from contracts import extra
     cs += common.shared(extra, ['core.TType.__call__'])
+    # the call step runs Call(cur, args, kwargs) through the evaluator and every literal argument goes through arg_val: their contracts
+    # (C03 / C08) carry 'the call is applied to the value reached so far' and 'every other argument is passed through literally'
+    from contracts import C03, C08
+    cs += common.shared(extra, ['core.Call.__init__'])
+    cs += common.shared(C03, ['core.Call.glomit'])
+    cs += common.shared(C08, ['core.arg_val', 'core._ArgValuator.mode'])
     return cs
 
 
